@@ -99,7 +99,9 @@ def judge(call: dict, out: dict) -> list[tuple[str, str]]:
     return bad
 
 
-CLASSES = {"bundled-base-class": "F14", "passthrough-undeclared-base-class": "F15", "default-with-content-returns": "F40"}
+# failure class -> recorded finding; a class without an entry is a VIOLATION (F15, the catch-all raising the base class for an
+# undeclared 4xx/5xx status, is repaired: "passthrough-undeclared-base-class" is no longer expected)
+CLASSES = {"bundled-base-class": "F14", "default-with-content-returns": "F40"}
 
 
 def check(run: Run, ctx) -> None:
